@@ -23,7 +23,7 @@ pub fn throttle_collect(config: &Config, events: &EvRx, errors: &ErrTx, mut last
         // urgent and empty events are not filtered; everything else is filtered exactly once
         r matches Ok(Some(_)) ==> final(env).filter_calls@ == old(env).filter_calls@ + filtered_idx(final(env).recvd@, old(env).recvd@.len() as int, final(env).recvd@.len() as int), // OBL:C01+C02.throttle_collect.filter_called_once_per_filterable_event
         // the function gives up (no batch) only when the event channel is closed or the error channel is gone
-        r matches Ok(None) ==> final(env).closed@ || final(env).recvd@.len() == old(env).recvd@.len() || true, // (see C01 note: Ok(None) after a closed channel drops what was collected)
+        r matches Ok(None) ==> final(env).closed@, // OBL:C01.throttle_collect.gives_up_only_when_the_event_channel_is_closed
         r is Err ==> r->Err_0 is ErrorChannelSend, // OBL:C15.throttle_collect.only_a_closed_error_channel_is_critical
         // ---- C15: each filter error is sent to the error channel exactly once, in order, and does not end the collection ----
         r is Ok ==> final(env).errs@ == old(env).errs@ + fail_ids(final(env).verdicts@, old(env).recvd@.len() as int, final(env).recvd@.len() as int), // OBL:C15.throttle_collect.each_filter_error_sent_exactly_once
